@@ -111,6 +111,12 @@ def decodeMacro (attrs : List Attrs) : Nat → Json → Except String Model.Auth
     | "ev" => pure (.ev (← decodeEv (← J.getObj j "ev")))
     | "tok" => pure (.tok (← J.getHex j "host") (← J.getHex j "tok") 0 0 (bound j) (← sub "mid0") (← sub "mid1") (← sub "mid2"))
     | "sar" => pure (.sar (← J.getHex j "host") (← nth attrs (← J.getNat j "attrs") "attrs") 0 (bound j) (← sub "mid0") (← sub "mid"))
+    | "pipe" => do
+      let atr ← match j.getObjVal? "attrs" >>= (·.getInt?) with
+        | .ok i => if i < 0 then pure none else do pure (some (← nth attrs i.toNat "attrs"))
+        | .error _ => pure none
+      pure (.pipe (← J.getHex j "host") (← J.getHex j "tok") atr (← sub "mid0") (← sub "mid1") (← sub "mid2")
+        (← sub "midA") (← sub "mid") (← sub "midD"))
     | o => throw s!"unknown op {o}"
 
 def errName : ErrKind → String
@@ -179,6 +185,10 @@ def encOut : Out → Json
   | .sar o => J.obj [("kind", "sar"), ("rid", J.nat o.rid), ("inst", optInst o.inst), ("upstream", optInst o.upstream), ("res", encSarRes o.res),
                      ("time", J.nat o.time), ("src", srcName o.src), ("ep", optHex o.ep), ("ready", J.hexList o.ready)]
 
+  | .disp o => J.obj [("kind", "disp"), ("rid", J.int (-1)), ("inst", optInst o.selected), ("upstream", optInst o.upstream),
+                      ("proxied", optInst o.proxied), ("time", J.nat o.time), ("res", Json.null), ("src", "none"),
+                      ("ep", Json.null), ("ready", Json.arr #[])]
+
 def decOwn (j : Json) : Except String (Option Inst) := do
   let i ← J.getInt j "own"
   pure (if i < 0 then none else some i.toNat)
@@ -187,7 +197,8 @@ def doRun (a : Json) : Except String Json := do
   let cfgJ ← J.getObj a "cfg"
   let cfg : Cfg := { successTTL := ← J.getNat cfgJ "successTTL", failureTTL := ← J.getNat cfgJ "failureTTL",
                      allowTTL := ← J.getNat cfgJ "allowTTL", denyTTL := ← J.getNat cfgJ "denyTTL",
-                     bindTok := KG.Gen.C12.bindsTokenToUpstream, bindSar := KG.Gen.C12.bindsSarToUpstream }
+                     bindTok := KG.Gen.C12.bindsTokenToUpstream, bindSar := KG.Gen.C12.bindsSarToUpstream,
+                     bindDisp := KG.Gen.C12.dispatcherUsesBoundCluster }
   let attrs ← (← J.getArr a "attrs").toList.mapM decodeAttrs
   let tokRules ← (← J.getArr a "tokOracle").toList.mapM fun r => do
     pure (⟨← J.getNat r "inst", ← J.getHex r "tok", ← J.getNat r "from", ← decodeTokAns (← J.getObj r "ans")⟩ : TokRule)
@@ -198,7 +209,7 @@ def doRun (a : Json) : Except String Json := do
   let ops ← (← J.getArr a "ops").toList.mapM (decodeMacro attrs 6)
   let r := runMacros env ⟨init, [], []⟩ ops
   -- candidate times for the judge: every time at which an answer was given (model), plus the observation's own
-  let modelTimes := r.outs.map fun o => match o with | .tok x => x.time | .sar x => x.time
+  let modelTimes := r.outs.map fun o => match o with | .tok x => x.time | .sar x => x.time | .disp x => x.time
   let impl := match J.optObj a "impl" with
     | some (Json.arr xs) => xs.toList
     | _ => []
